@@ -489,6 +489,7 @@ def open_any(kind):
     K = KINDS[kind]
 
     def run(S):
+        S.prune_lia = True  # byte-parsing code: reachability is decided by lengths (pyvc/prune.py)
         install_codecs(S)
         now = install_clock(S)
         ref = reference_rejection(S)
@@ -618,6 +619,7 @@ def roundtrip(kind):
     K = KINDS[kind]
 
     def run(S):
+        S.prune_lia = True  # byte-parsing code: reachability is decided by lengths (pyvc/prune.py)
         install_codecs(S)
         now = install_clock(S)
         ref = reference_rejection(S)
